@@ -49,11 +49,11 @@ func runC07(r *R) {
 	if fn := r.NeedFn("C07-R2", arv+".makePermSignature"); fn != nil {
 		for _, ret := range Returns(fn) {
 			hi, ok := HexHMACOf(ret.Results[0])
-			want := []string{"param:blobHash", "\"@\":string", "param:apiToken", "\"@\":string", "param:expiry", "\"@\":string", "param:blobSignatureTTL"}
+			want := []string{"param:blobHash", `"@"`, "param:apiToken", `"@"`, "param:expiry", `"@"`, "param:blobSignatureTTL"}
 			if ok {
-				ok = hi.HashCtor == "crypto/sha1.New" && Canon(hi.Key) == "param:permissionSecret" && len(hi.Writes) == len(want)
+				ok = hi.HashCtor == "crypto/sha1.New" && Canon(hi.Key) == "param:permissionSecret" && len(hi.Parts) == len(want)
 				for i := 0; ok && i < len(want); i++ {
-					if Canon(hi.Writes[i]) != want[i] {
+					if hi.Parts[i] != want[i] {
 						ok = false
 					}
 				}
@@ -173,7 +173,7 @@ func runC07(r *R) {
 	}
 
 	// ---- R7
-	r.Rule("C07-R7", "SignManifest: tokens are whitespace-delimited (\\S+); only tokens matching ^[0-9a-f]{32}.* are re-signed (after removing \\+A[^+]* hints); every other token is returned unchanged", 4)
+	r.Rule("C07-R7", "SignManifest: tokens are whitespace-delimited (\\S+); only tokens matching ^[0-9a-f]{32}.* are re-signed (after removing \\+A[^+]* hints); every other token is returned unchanged", 3)
 	for name, want := range map[string]string{arv + ".mBlkRe": `^[0-9a-f]{32}.*`, arv + ".mPermHintRe": `\+A[^+]*`} {
 		if lit, ok := r.W.GlobalRegexLiteral(name); !ok {
 			r.addS("C07-R7", name, "regex literal", "-", Undecided, "initialiser not found")
@@ -182,11 +182,11 @@ func runC07(r *R) {
 		}
 	}
 	if outer := r.NeedFn("C07-R7", arv+".SignManifest"); outer != nil {
+		// the tokeniser: the regexp on which ReplaceAllStringFunc is called — compiled in place or a package-level variable
 		okTok := false
-		for _, c := range CallsIn(outer, "regexp.MustCompile") {
-			if lit, ok := ConstString(c.Common().Args[0]); ok && regexCanon(lit) == regexCanon(`\S+`) {
-				okTok = true
-			}
+		for _, c := range CallsIn(outer, "(*regexp.Regexp).ReplaceAllStringFunc") {
+			lit, ok := r.W.RegexLiteralOf(c.Common().Args[0])
+			okTok = ok && regexCanon(lit) == regexCanon(`\S+`)
 		}
 		r.Check(okTok, "C07-R7", outer, "tokeniser \\S+", outer.Pos(), "whole whitespace-delimited tokens", "manifest is not tokenised on whitespace: parts of stream names / file tokens can be mistaken for locators")
 		n := 0
